@@ -5,10 +5,10 @@ use std::io::{self, Write};
 use std::path::{Path, PathBuf};
 use std::sync::{Arc, Mutex};
 
-use tantivy::directory::error::{DeleteError, OpenReadError, OpenWriteError};
+use tantivy::directory::error::{DeleteError, LockError, OpenReadError, OpenWriteError};
 use tantivy::directory::{
-    AntiCallToken, Directory, FileHandle, OwnedBytes, TerminatingWrite, WatchCallback, WatchCallbackList,
-    WatchHandle, WritePtr,
+    AntiCallToken, Directory, DirectoryLock, FileHandle, Lock, OwnedBytes, TerminatingWrite, WatchCallback,
+    WatchCallbackList, WatchHandle, WritePtr,
 };
 
 #[derive(Clone, Debug, PartialEq, Eq)]
@@ -116,6 +116,8 @@ struct Control {
 }
 
 struct Inner {
+    /// advisory locks currently held (flock-like: they die with their guard, no storage operation involved)
+    locks: Mutex<std::collections::BTreeSet<String>>,
     fs: Mutex<Fs>,
     log: Mutex<Vec<LogEntry>>,
     ctl: Mutex<Control>,
@@ -177,6 +179,7 @@ impl SimDirectory {
     pub fn new() -> SimDirectory {
         SimDirectory {
             inner: Arc::new(Inner {
+                locks: Mutex::new(Default::default()),
                 fs: Mutex::new(Fs {
                     visible: BTreeMap::new(),
                     inodes: vec![],
@@ -240,6 +243,9 @@ impl SimDirectory {
             .iter()
             .map(|(p, &i)| (p.clone(), fs.inodes[i].data.clone()))
             .collect()
+    }
+    pub fn lock_is_held(&self, path: &str) -> bool {
+        self.inner.locks.lock().unwrap().contains(path)
     }
     pub fn file_names(&self) -> Vec<String> {
         self.inner.fs.lock().unwrap().visible.keys().cloned().collect()
@@ -512,6 +518,29 @@ impl Directory for SimDirectory {
         Ok(())
     }
 
+    /// Locks are modelled like MmapDirectory's flock: held in memory by a guard, released when the guard is
+    /// dropped (a crash or a failing storage cannot leave a stale lock). Acquisition is a storage operation
+    /// ("lock") that can be gated and fault-injected; a blocking lock retries while it is busy.
+    fn acquire_lock(&self, lock: &Lock) -> Result<DirectoryLock, LockError> {
+        let p = pstr(&lock.filepath);
+        let mut retries = if lock.is_blocking { 100 } else { 0 };
+        loop {
+            if let Err(e) = self.before("lock", &p) {
+                return Err(LockError::IoError(Arc::new(e)));
+            }
+            let got = self.inner.locks.lock().unwrap().insert(p.clone());
+            if got {
+                return Ok(DirectoryLock::from(Box::new(SimLockGuard { dir: self.clone(), path: p })));
+            }
+            if retries == 0 {
+                return Err(LockError::LockBusy);
+            }
+            retries -= 1;
+            let d = tantivy::verif_hooks::lock_retry_sleep(std::time::Duration::from_millis(100));
+            std::thread::sleep(d);
+        }
+    }
+
     fn sync_directory(&self) -> io::Result<()> {
         let r = self.before("sync_dir", "");
         self.push_log(Op::SyncDir, r.is_ok());
@@ -520,6 +549,17 @@ impl Directory for SimDirectory {
 
     fn watch(&self, watch_callback: WatchCallback) -> tantivy::Result<WatchHandle> {
         Ok(self.inner.watch.subscribe(watch_callback))
+    }
+}
+
+struct SimLockGuard {
+    dir: SimDirectory,
+    path: String,
+}
+
+impl Drop for SimLockGuard {
+    fn drop(&mut self) {
+        self.dir.inner.locks.lock().unwrap().remove(&self.path);
     }
 }
 
